@@ -258,13 +258,12 @@ Proof.
   intros a s r tmo H. unfold resume_applies in H. unfold resume_session.
   destruct (sstatus_eqb (s_status s) SWaiting); cbn [andb negb] in *; [|discriminate].
   destruct (waiting_run s) as [wi|] eqn:Ewr; [|discriminate].
-  destruct (get_run s wi) as [rn|] eqn:Egr; [|discriminate].
-  destruct (get_flow a (r_flow rn)); [|discriminate]. cbn [negb] in *.
+  destruct (run_flow_unusable a s wi); cbn [andb negb] in *; [discriminate|].
   destruct (Z.of_nat (count_waits s) >=? max_resumes (a_opts a))%Z; cbn [andb negb] in *; [discriminate|].
   destruct (path_location a s wi) as [[pos n]|] eqn:Epl; [|discriminate].
   destruct (n_router n) as [[[w|] res cats cases def]|]; try discriminate.
   rewrite H. cbn [negb]. exists wi, pos, n. split; [first [reflexivity|exact Ewr]|]. split; [first [reflexivity|exact Epl]|].
-  unfold proceeds. rewrite Egr. reflexivity.
+  unfold proceeds. reflexivity.
 Qed.
 
 Lemma fail_session_fresh_sprint : forall s wi c,
@@ -282,8 +281,7 @@ Proof.
   intros a s r tmo H. unfold resume_applies in H. unfold resume_session.
   destruct (sstatus_eqb (s_status s) SWaiting); cbn [andb negb] in *; [|left; eauto].
   destruct (waiting_run s) as [wi|]; [|left; eauto].
-  destruct (get_run s wi) as [rn|]; [|right; eauto].
-  destruct (get_flow a (r_flow rn)); [|right; eauto]. cbn [negb] in *.
+  destruct (run_flow_unusable a s wi); cbn [andb negb] in *; [right; eauto|].
   destruct (Z.of_nat (count_waits s) >=? max_resumes (a_opts a))%Z; cbn [andb negb] in *; [right; eauto|].
   destruct (path_location a s wi) as [[pos n]|]; [|right; eauto].
   destruct (n_router n) as [[[w|] res cats cases def]|]; try (right; eauto; fail).
